@@ -67,6 +67,9 @@ if __name__ == "__main__":
                 out.append(common.guarded(40, observe, c, warmup=case.get("warmup", 0) if j == 0 else 0))
             except common.Timeout:
                 out.append({"timeout": True})
+            except Exception as e:      # the real code died: that is an observation like any other
+                x = "exception:" + type(e).__name__
+                out.append({k: x for k in ("rets", "dump", "edges_order", "seeds", "control", "summary")})
         print(json.dumps(out, sort_keys=True))
     else:
         print(json.dumps(observe(case, warmup=case.get("warmup", 0)), sort_keys=True))
